@@ -668,7 +668,8 @@ func redactString(s string, nonEncryptedValue string) string {
 	if shouldEncrypt && encryptionKey != nil {
 		encrypted, err := Encrypt([]byte(s), encryptionKey)
 		if err != nil {
-			return s // Fallback to original if encryption fails
+			// never fall back to the original value: if it cannot be encrypted it is redacted
+			return nonEncryptedValue
 		}
 		return base64.StdEncoding.EncodeToString(encrypted)
 	}
